@@ -12,8 +12,8 @@
 //!    until the condition has been evaluated; tail expression of a plain block:
 //!    until the end of the statement that contains the block);
 //!  * an acquisition whose value is moved somewhere we do not follow (call
-//!    argument, struct field, assignment, return value) is kept until the end
-//!    of the function and reported in the log (`escaping`);
+//!    argument, struct field, assignment, return value) fails the run
+//!    (`ERROR escaping guard`; none at this commit);
 //!  * `drop(g)` inside an `if`/`else`/`match` arm/loop/closure body releases `g`
 //!    only inside that body: when the body is left the guard counts as held
 //!    again (`Hold`), since the other path did not release it.
@@ -135,6 +135,7 @@ struct Frame {
     restore: Vec<usize>,
     env_len: usize,
     clos_len: usize,
+    unshadow: Vec<(usize, String)>, // guard variables hidden by a binding of this block: visible again when it ends
 }
 
 struct Guard {
@@ -203,7 +204,7 @@ impl<'a> Walker<'a> {
 
     // ---------- frames and guards ----------
     fn push(&mut self, kind: Kind, conditional: bool) {
-        self.frames.push(Frame { kind, conditional, guards: vec![], restore: vec![], env_len: self.env.len(), clos_len: self.closures.len() });
+        self.frames.push(Frame { kind, conditional, guards: vec![], restore: vec![], env_len: self.env.len(), clos_len: self.closures.len(), unshadow: vec![] });
     }
 
     fn pop(&mut self) {
@@ -223,6 +224,11 @@ impl<'a> Walker<'a> {
         if f.kind == Kind::Block {
             self.env.truncate(f.env_len);
             self.closures.truncate(f.clos_len);
+        }
+        for (g, v) in f.unshadow {
+            if self.guards[g].var.is_none() {
+                self.guards[g].var = Some(v);
+            }
         }
     }
 
@@ -328,6 +334,20 @@ impl<'a> Walker<'a> {
             Expr::Index(i) => self.ety(&i.expr),
             Expr::Cast(c) => self.ety(&c.expr),
             _ => vec![],
+        }
+    }
+
+    /// a new binding of a name hides an older guard variable of that name until the binding's block ends:
+    /// `drop(name)` in between does not release the older guard
+    fn shadow(&mut self, p: &Pat, upto: usize) {
+        let mut ids = vec![];
+        pat_idents(p, &mut ids);
+        let scope = self.nearest(Kind::Block);
+        for g in 0..upto.min(self.guards.len()) {
+            if self.guards[g].var.as_ref().map(|v| ids.contains(v)).unwrap_or(false) {
+                let v = self.guards[g].var.take().unwrap();
+                self.frames[scope].unshadow.push((g, v));
+            }
         }
     }
 
@@ -455,6 +475,7 @@ impl<'a> Walker<'a> {
                 Stmt::Macro(m) if is_test_only(&m.attrs) => {}
                 Stmt::Local(l) => {
                     self.push(Kind::Temp, false);
+                    let guards_before = self.guards.len();
                     let mut tys = vec![];
                     if let Some(init) = &l.init {
                         let mut ids = vec![];
@@ -478,6 +499,7 @@ impl<'a> Walker<'a> {
                         }
                     }
                     self.pop();
+                    self.shadow(&l.pat, guards_before);
                     self.bind_pat(&l.pat, tys);
                 }
                 Stmt::Expr(e, semi) => {
@@ -663,7 +685,7 @@ impl<'a> Walker<'a> {
                 }
                 Ctx::LetRef(f) => self.acquire(&lock, write, f, None),
                 Ctx::Value => {
-                    self.log.push(format!("escaping guard ({}) in {}: held to the end of the function", lock, self.name));
+                    self.log.push(format!("ERROR escaping guard ({}) in {}: its value is moved (call argument, struct field, assignment, return value), so where it is released cannot be determined", lock, self.name));
                     self.acquire(&lock, write, 0, None);
                 }
             }
@@ -743,6 +765,7 @@ impl<'a> Walker<'a> {
                     self.expr(&l.expr, Ctx::Recv);
                     let tys = self.ety(&l.expr);
                     self.push(Kind::Block, false);
+                    self.shadow(&l.pat, usize::MAX);
                     self.bind_pat(&l.pat, tys);
                     self.cond_block(&i.then_branch, ctx);
                     self.pop();
@@ -769,6 +792,7 @@ impl<'a> Walker<'a> {
                 for arm in &m.arms {
                     self.push(Kind::Block, true);
                     self.push(Kind::Temp, true);
+                    self.shadow(&arm.pat, usize::MAX);
                     self.bind_pat(&arm.pat, tys.clone());
                     if let Some((_, g)) = &arm.guard {
                         self.expr(g, Ctx::Recv);
@@ -784,6 +808,7 @@ impl<'a> Walker<'a> {
                 if let Expr::Let(l) = &*w.cond {
                     self.expr(&l.expr, Ctx::Recv);
                     let tys = self.ety(&l.expr);
+                    self.shadow(&l.pat, usize::MAX);
                     self.bind_pat(&l.pat, tys);
                     self.cond_block(&w.body, Ctx::Recv);
                     self.pop();
@@ -798,6 +823,7 @@ impl<'a> Walker<'a> {
                 self.expr(&f.expr, Ctx::Recv);
                 let tys = self.ety(&f.expr);
                 self.push(Kind::Block, false);
+                self.shadow(&f.pat, usize::MAX);
                 self.bind_pat(&f.pat, tys);
                 self.cond_block(&f.body, Ctx::Recv);
                 self.pop();
@@ -878,6 +904,7 @@ impl<'a> Walker<'a> {
         self.push(Kind::Block, true);
         self.push(Kind::Temp, true);
         for p in &c.inputs {
+            self.shadow(p, usize::MAX);
             self.bind_pat(p, param_ty.clone());
         }
         self.expr(&c.body, Ctx::Recv);
